@@ -121,3 +121,22 @@ Proof. exact frozen_observer. Qed.
 (** the predicate evaluated by the correspondence check holds of the extended model's trace, for every history *)
 Theorem C16_accessor_spec : forall l0 con xops, xspec_C16 l0 con xops (xmodel_trace l0 con xops) = true.
 Proof. exact xspec_model. Qed.
+
+(** an accessor whose output is any function [txt] of the locale it reads (the arm `t_plural!` selects, the text
+    `t_format!` produces) renders, after any continuation, [txt] of the current locale of its context *)
+Theorem C16_accessor_renders_current_text : forall (T : Type) (txt : N -> T) l0 con pre h fa fb post,
+  let a0 := a_run (a_init l0 con) (map erase pre) in
+  (h < a_nh a0)%nat -> fl_frozen fa = false ->
+  let xops := pre ++ XAcc h fa fb :: post in
+  let s := fst (xc_run (c_init l0 con, []) xops) in
+  let a := a_run (a_init l0 con) (map erase xops) in
+  let k := a_nacc a0 in
+  (k < c_nacc s)%nat /\ render_with txt s k = txt (a_loc a (a_hctx a0 h)).
+Proof. exact @accessor_renders_current_text. Qed.
+
+(** the correspondence check reads a class of texts back as a locale: with the expected locale as first candidate the
+    result is that locale exactly when the observed text is that locale's *)
+Theorem C16_decode_sound : forall t c cs r,
+  (N.to_nat c < length t)%nat -> (length t <= 99)%nat ->
+  decode (Some t) (c :: cs) r = c <-> tbl_get t c = r.
+Proof. exact decode_iff. Qed.
